@@ -82,6 +82,8 @@ type fnExec struct {
 	// current block context
 	curR      Term
 	sentinels []string
+	hookFired map[string]bool
+	prevStored SV
 	preAssumed bool
 	lemmasUsed map[string]bool
 	st        *State
@@ -1351,6 +1353,36 @@ func (fx *fnExec) cutLoop(li *loopInfo) {
 	for _, phi := range li.phis {
 		li.headPhis[phi] = fx.vals[phi]
 	}
+	// go/ssa lowers `for i := range slice` to a hidden counter that starts at -1 and is only ever incremented by
+	// one in the loop header: it is never below -1 (structural fact, checked on the SSA: see rangeIndexCell)
+	if ri := rangeIndexCell(li); ri != nil && fx.mode != "bv" {
+		if v, ok := fx.st.cells[ri]; ok {
+			if sc, isSc := v.(Sc); isSc {
+				fx.assume(app(SBool, "<=", intLit64(-1), sc.T))
+				// ... and it is below the length it is compared with (the back edge is taken only under that test)
+				for _, in := range li.header.Instrs {
+					if bo, isB := in.(*ssa.BinOp); isB && bo.Op == token.LSS {
+						if inc, isInc := bo.X.(*ssa.BinOp); isInc && inc.Op == token.ADD {
+							if ld, isL := inc.X.(*ssa.UnOp); isL && ld.X == ssa.Value(ri) {
+								yc, isCall := bo.Y.(*ssa.Call)
+								if !isCall {
+									continue
+								}
+								if bi, isBi := yc.Call.Value.(*ssa.Builtin); !isBi || bi.Name() != "len" {
+									continue
+								}
+								if yv, okY := fx.vals[bo.Y]; okY {
+									if ysc, isY := yv.(Sc); isY && ysc.T.So == SInt {
+										fx.assume(app(SBool, "<", sc.T, ysc.T))
+									}
+								}
+							}
+						}
+					}
+				}
+			}
+		}
+	}
 	li.head = fx.st.clone()
 	env = fx.curEnv()
 	env.loopPre = li.pre
@@ -1506,6 +1538,7 @@ func (fx *fnExec) havocHeap(name string) {
 }
 
 func (fx *fnExec) finish() {
+	fx.checkHooksBound()
 	// join exits
 	if len(fx.exits) == 0 {
 		return
@@ -1791,4 +1824,65 @@ func (fx *fnExec) sentinelTerm(g *ssa.Global) Term {
 		fx.sentinels = append(fx.sentinels, n)
 	}
 	return Term{n, SInt}
+}
+
+// rangeIndexCell: the hidden counter of a range-over-slice loop headed by li.header, when every store to it in the
+// function is either the initial -1 or "itself + 1" (the shape go/ssa generates).
+func rangeIndexCell(li *loopInfo) *ssa.Alloc {
+	if li.header.Comment != "rangeindex.loop" {
+		return nil
+	}
+	var ri *ssa.Alloc
+	for _, in := range li.header.Instrs {
+		if u, ok := in.(*ssa.UnOp); ok && u.Op == token.MUL {
+			if a, isA := u.X.(*ssa.Alloc); isA && a.Comment == "rangeindex" {
+				ri = a
+				break
+			}
+		}
+	}
+	if ri == nil {
+		return nil
+	}
+	for _, b := range ri.Parent().Blocks {
+		for _, in := range b.Instrs {
+			st, ok := in.(*ssa.Store)
+			if !ok || st.Addr != ssa.Value(ri) {
+				continue
+			}
+			if c, isC := st.Val.(*ssa.Const); isC && c.Value != nil && c.Int64() == -1 {
+				continue
+			}
+			if bo, isB := st.Val.(*ssa.BinOp); isB && bo.Op == token.ADD {
+				if ld, isL := bo.X.(*ssa.UnOp); isL && ld.X == ssa.Value(ri) {
+					if c, isC := bo.Y.(*ssa.Const); isC && c.Value != nil && c.Int64() == 1 {
+						continue
+					}
+				}
+			}
+			return nil
+		}
+	}
+	return ri
+}
+
+// checkHooksBound: a hook that matches no program point of the function says nothing any more (the code it was
+// written for has gone): reported like a contract that cannot be bound, not silently skipped.
+func (fx *fnExec) checkHooksBound() {
+	if fx.ctr == nil || len(fx.ctr.Cases) > 0 || fx.ctr.Split != nil {
+		return
+	}
+	for _, h := range fx.ctr.Hooks {
+		if h.Event == "return" || h.Event == "exit" || h.Optional {
+			continue
+		}
+		if fx.hookFired[h.Where+"|"+h.Event+"|"+h.Target] {
+			continue
+		}
+		o := &Obligation{Name: fmt.Sprintf("%s/hook-binding:%s %s", fx.name, h.Event, h.Target), Kind: "frame", Func: fx.name, Mode: fx.mode, Prefix: 0, Goal: tTrue,
+			Where: h.Where, Src: "on " + h.Event + " " + h.Target, fx: fx}
+		o.Preset = "fail"
+		o.Model = "the hook matches no program point of the function: what it asserted is no longer checked"
+		fx.obls = append(fx.obls, o)
+	}
 }
